@@ -127,7 +127,11 @@ def main():
         n_tables = n_calls = 0
         steps = [('add', r) for r in resources] + [('remove', 'test-en:1'),
                                                    ('add', resources[0]), ('remove', 'test-ja:1'),
-                                                   ('remove', 'test-es:*')]
+                                                   ('remove', 'test-es:*'),
+                                                   # enforcement off: no cascade, orphans stay
+                                                   ('pragma', 'PRAGMA foreign_keys = OFF'),
+                                                   ('remove', 'test-en:1'),
+                                                   ('pragma', 'PRAGMA foreign_keys = ON')]
         for op, arg in steps:
             for which in ('real', 'model'):
                 if which == 'real':
@@ -136,6 +140,8 @@ def main():
                     SM.install(mconn)
                 if op == 'add':
                     wn.add_lexical_resource(arg, progress_handler=None)
+                elif op == 'pragma':
+                    (wn._db.connect() if which == 'real' else mconn).execute(arg)
                 else:
                     wn.remove(arg, progress_handler=None)
             SM.uninstall()
